@@ -523,6 +523,8 @@ def f_binary_intr(name, a, b, w):
         small = b if x > y else a
         return big if name == "maxnum" else small
     if name in ("maximum", "minimum"):
+        if f_is_snan(a, w) or f_is_snan(b, w):
+            raise Excluded("unspecified:maximum-snan")
         if f_is_nan(a, w) or f_is_nan(b, w):
             return NANY
         x, y = to_py(a, w), to_py(b, w)
